@@ -326,17 +326,21 @@ def _count(t):
     return sum(1 + _count(c) for c in t)
 
 
-def _layout_tree(ctx, E, forest, sib, base_off, cu_off, nm):
+def _layout_tree(ctx, E, forest, sib, base_off, cu_off, nm, pad=0):
     """DIE bytes for a forest under the top DIE.  abbrev 2 = leaf(data1), 3 = parent(data1) [+ sibling attr per `sib`]
     -> (bytes, flat expected list of dict(off,size,code,children,null,depth,val), nesting)"""
     flat = []
     sibsz = {'none': 0, 'ref4': 4, 'ref_udata': 2, 'ref_addr': (E.addr if E.version == 2 else E.offsz)}[sib]
 
+    # pad: extra bytes of the (then non-minimal) ULEB128 abbreviation codes, null entries included (0x80 0x00 is a null entry of size 2)
+    def code(c):
+        return enc.uleb_enc(c, 1 + pad)
+
     def size_of(node):
         kids = node
         if not kids:
-            return 2
-        return 2 + sibsz + sum(size_of(k) for k in kids) + 1
+            return 2 + pad
+        return 2 + pad + sibsz + sum(size_of(k) for k in kids) + 1 + pad
 
     def emit(nodes, off, depth, parent):
         out = []
@@ -345,14 +349,14 @@ def _layout_tree(ctx, E, forest, sib, base_off, cu_off, nm):
             me = dict(off=off, depth=depth, parent=parent, val=val, null=False)
             flat.append(me)
             if not node:
-                me.update(size=2, code=2, children=False)
-                out += [2, val]
-                off += 2
+                me.update(size=2 + pad, code=2, children=False)
+                out += code(2) + [val]
+                off += 2 + pad
             else:
                 total = size_of(node)
                 nxt = off + total
-                me.update(size=2 + sibsz, code=3, children=True)
-                b = [3]
+                me.update(size=2 + pad + sibsz, code=3, children=True)
+                b = code(3)
                 if sib == 'ref4':
                     b += enc.enc_int(nxt - cu_off, 4, E.little)
                 elif sib == 'ref_udata':
@@ -361,10 +365,10 @@ def _layout_tree(ctx, E, forest, sib, base_off, cu_off, nm):
                     b += enc.enc_int(nxt, sibsz, E.little)
                 b += [val]
                 kb = emit(node, off + len(b), depth + 1, me)
-                term = dict(off=off + len(b) + len(kb), size=1, code=0, children=None, null=True, depth=depth + 1, parent=me, val=None)
+                term = dict(off=off + len(b) + len(kb), size=1 + pad, code=0, children=None, null=True, depth=depth + 1, parent=me, val=None)
                 flat.append(term)
                 me['terminator'] = term
-                out += b + kb + [0]
+                out += b + kb + code(0)
                 off = nxt
         return out
     data = emit(forest, base_off, 1, None)
@@ -389,8 +393,9 @@ def h_tree(ctx):
     cu_off = len(sec)
     hdr_probe, hsz = unit_header(E.version, E.fmt64, E.little, E.addr, 0, 'compile', body_len=0, tu=tu)
     top_off = cu_off + hsz
-    body, flat = _layout_tree(ctx, E, forest, sib, top_off + 1, cu_off, 't')
-    full = [1] + body + ([0] if forest else [])
+    pad = cfg.get('codepad', 0)
+    body, flat = _layout_tree(ctx, E, forest, sib, top_off + 1 + pad, cu_off, 't', pad)
+    full = enc.uleb_enc(1, 1 + pad) + body + (enc.uleb_enc(0, 1 + pad) if forest else [])
     h, _ = unit_header(E.version, E.fmt64, E.little, E.addr, 0, 'compile', body_len=len(full), tu=tu, signature=0x2222 if tu else 0, type_offset=hsz)
     sec += h + full
     # a following unit, so that the end of this one is not the end of the section
@@ -405,9 +410,9 @@ def h_tree(ctx):
         return ctx.drain(di.iter_CUs())[pre_units]
     cu = fresh()
     mode = cfg.get('mode', 'iter')
-    want = [dict(off=top_off, size=1, code=1, children=bool(forest), null=False, depth=0, parent=None, val=None)] + flat
+    want = [dict(off=top_off, size=1 + pad, code=1, children=bool(forest), null=False, depth=0, parent=None, val=None)] + flat
     if forest:
-        want.append(dict(off=top_off + 1 + len(body), size=1, code=0, children=None, null=True, depth=1, parent=None, val=None))
+        want.append(dict(off=top_off + 1 + pad + len(body), size=1 + pad, code=0, children=None, null=True, depth=1, parent=None, val=None))
     ctx.outcome('ok')
     if mode == 'random-first':
         # random access by offset before any iteration, last entry first
@@ -602,6 +607,10 @@ def _tree_instances(tier):
                     if mode != 'iter' and _count(forest) not in (3, maxn):
                         continue
                     out.append(dict(env=e, forest=forest, sib=sib, mode=mode, pre=1 if sib == 'ref_addr' else 0))
+    # non-minimal ULEB128 abbreviation codes (every code, null entries included, padded by one byte)
+    for o in list(out):
+        if o['mode'] == 'iter' and _count(o['forest']) in (2, 3, maxn) and o['env'] is ENVS_Q[0]:
+            out.append(dict(o, codepad=1))
     # the same trees inside DWARF 4 type units (.debug_types), whose navigation code is separate from the compile units'
     tu_envs = [dict(version=4, fmt64=False, addr=8, little=True), dict(version=4, fmt64=True, addr=4, little=False)]
     for e, sibs in ((tu_envs[0], ('none', 'ref4', 'ref_addr')), (tu_envs[1], ('ref_udata', 'ref_addr', 'none'))):
@@ -615,6 +624,8 @@ def _tree_instances(tier):
                     if mode != 'iter' and _count(forest) not in (3, maxn):
                         continue
                     out.append(dict(env=e, forest=forest, sib=sib, mode=mode, pre=1 if sib != 'ref4' else 0, tu=True))
+                    if mode == 'iter' and _count(forest) in (3, maxn) and e is tu_envs[0]:
+                        out.append(dict(out[-1], codepad=1))
     return out
 
 
